@@ -45,7 +45,8 @@ chk("C06",
     "checks on every Fdwra step never-re-accepts, 1<=iterations<=max_iterations and implementation-shaped outcome in the property "
     "set, for all orderings of sampled window multisets; every transition (4 n values x 4 max_iterations x 4 ranges x cached/uncached "
     "entry x arbitrary start masks) is replayed on real traditional and azimuthal objects (return value + masks), amplitudes x8; "
-    "lognormal-fn runs of the real function are recorded and validated by TLC against the property tier.",
+    "lognormal-fn runs of the real function are recorded and validated by TLC against the property tier. On a grid of 1/64 Hz "
+    "(ZeroExact) the zero guards of the algorithm are decided, not left open, and replayed with the library's logger at its default level.",
     HV_NOTE + " For a lognormal fn the criterion on |mean fn - mean-curve peak| needs exp() and is left open in the property tier.",
     "TLA+ FDWRA operator model-checked with TLC; transitions replayed into the real function; recorded runs validated by TLC (trace validation)",
     "DESIGN.md#c06")
@@ -132,7 +133,8 @@ chk("C09",
     "property-level design and finds the counterexample history for today's FFT-length ratchet (negative configuration). Code level: "
     "seeded random sessions over every processing method x tapers x fft settings (process, exact repeats, interleaved calls incl. a "
     "recording needing 65 536 points, in-place modification of recordings and settings) are logged as heap snapshots (storage identity + "
-    "SHA-256 content of every recording, settings object, result) and every step is validated by TLC against TraceSessionHeap.",
+    "SHA-256 content of every recording, settings object, result; whether the caller's list still holds the same recordings) and every "
+    "step is validated by TLC against TraceSessionHeap; sessions with two time steps exercise the keeping policies.",
     "Trusted: TLC; spec/Heap.tla, Session.tla, TraceSessionHeap.tla; digests/alias classes as in C18. Two repeat mismatches caused by "
     "the stored FFT length are listed as open known findings (n=None, interleaved ratchet). Sessions are sampled.",
     "TLA+ design model checked with TLC (positive + negative config); recorded sessions of the real API validated by TLC (trace validation)", "DESIGN.md#c09")
